@@ -327,6 +327,10 @@ package task
 //@ func (t *Task) BuildTaskCommand(role parentRole) (err error)
 //@   property C14
 //@   ghostvar wf *string = nil
+//@   ghostvar nwrap int = 0
 //@   on aftercall .ConsolidatedVarStack : wf = result0
 //@   on call .WrappedAndFlattened : assert arg0 != nil && arg0.theMap == wf && arg0.parent == nil
-//@   on aftercall .WrappedAndFlattened : wf = result0
+// the final stack (second merge): class vars over class defaults underneath the workflow stack
+//@   on call .WrappedAndFlattened when nwrap == 1 : assert arg1 is *gera.WrapMap[string, string] && arg1.(*gera.WrapMap[string, string]) != nil && arg1.(*gera.WrapMap[string, string]).theMap == localVars && arg1.(*gera.WrapMap[string, string]).parent is *gera.WrapMap[string, string] && arg1.(*gera.WrapMap[string, string]).parent.(*gera.WrapMap[string, string]) != nil && arg1.(*gera.WrapMap[string, string]).parent.(*gera.WrapMap[string, string]).theMap == localDefaults && arg1.(*gera.WrapMap[string, string]).parent.(*gera.WrapMap[string, string]).parent == nil
+//@   on call .WrappedAndFlattened : nwrap = nwrap + 1
+//@   ensures err == nil && wf != nil ==> nwrap == 2
